@@ -1,5 +1,6 @@
 import HpoProofs.Closure
 import HpoProofs.BuilderInv
+import HpoProofs.Acyclic
 import HpoModel.Read
 import HpoModel.Load
 /-!
@@ -31,6 +32,38 @@ theorem transGen_rank {o : Onto} {rank : Nat → Nat}
   induction h with
   | single h => exact hr _ _ h
   | tail _ h ih => exact Nat.lt_trans (hr _ _ h) ih
+
+/-- the textbook formulation of acyclicity: no term is its own ancestor -/
+def Irreflexive (o : Onto) : Prop := ∀ j, ¬ TransGen (isA o) j j
+
+/-- On builder states the bounded-rank hypothesis `Acyclic` is *equivalent* to the textbook one:
+a finite irreflexive is_a relation has a rank function bounded by the number of terms
+(longest upward chain; pigeonhole on duplicate-free chains). So every theorem below holds for
+all finite acyclic is_a graphs in the usual sense. -/
+theorem C01_acyclic_iff_irreflexive (o : Onto) (h : PreInv o.terms) : Acyclic o ↔ Irreflexive o := by
+  constructor
+  · rintro ⟨rank, hr, _⟩ j hj
+    have := transGen_rank hr hj
+    omega
+  · intro hirr
+    have hsrc : ∀ c p, p ∈ parentsOf o.terms c → c ∈ o.ids := by
+      intro c p hp
+      unfold Onto.ids
+      rw [← getT_isSome_iff]
+      cases hg : getT o.terms c with
+      | none => simp [parentsOf, hg] at hp
+      | some _ => rfl
+    have htgt : ∀ c p, p ∈ parentsOf o.terms c → p ∈ o.ids := by
+      intro c p hp
+      unfold Onto.ids
+      rw [← getT_isSome_iff]
+      exact h.closedP c p hp
+    obtain ⟨h1, h2⟩ := rank_of_irreflexive (parentsOf o.terms) o.ids hsrc htgt hirr
+    refine ⟨height (parentsOf o.terms) o.ids.length, h1, ?_⟩
+    intro j
+    have := h2 j
+    have hl : o.ids.length = o.terms.length := by simp [Onto.ids]
+    omega
 
 /-- Main theorem. On every well-formed acyclic builder state `connect_all_terms` terminates
 without panic, changes nothing but the `all_parents` fields, and leaves in every term exactly the
